@@ -106,6 +106,16 @@ def ret_const(fn, i):
     return None
 
 
+def ret_const_of(fn, v):
+    """ret_const for a value node (e.g. one leaf of `return c ? A : B`)."""
+    n = fn.nodes[fn.strip(v)]
+    if n["k"] == "ref" and n["dk"] == "enumconst":
+        return n["name"]
+    if n["k"] == "lit":
+        return str(n["v"])
+    return None
+
+
 def key_has(*subs):
     """Predicate factory on (key, pol, node): key contains all substrings."""
     def p(k, pol=None, node=None):
@@ -815,6 +825,15 @@ def readdir_does_not_follow_links(ctx, tag):
                   "dangling link makes the stat - and with it the whole directory listing - fail" % (nm, ", ".join(a)[:80]))
 
 
+def _flag_test(k, p, flag):
+    """fact (k, p) says 'bit `flag` is set': (x & FLAG) true, or (x & FLAG) == 0 false (the canonical form of != 0)"""
+    if not isinstance(k, str) or not isinstance(p, bool) or not re.search(r"\b%s\b" % flag, k):
+        return False
+    if re.match(r"^\((0 == \(.*\)|\(.*\) == 0)\)$", k):
+        return p is False
+    return p is True
+
+
 def readdir_classification(ctx, tag):
     """Both branches of readDirFromDIR (d_type fast path and fstatat fallback) put entries selected by DE_DIR into the dirs list and
     entries selected by DE_FILE into the files list of the DirEnts that is returned.  The selection is recognised by the flag constant
@@ -833,7 +852,7 @@ def readdir_classification(ctx, tag):
         g = fl.guards(i)
         tgt = rd.text(rd.nodes[i]["recv"])
         for flag in by:
-            if any(p is True and re.search(r"\b%s\b" % flag, k) for k, p in g):
+            if any(_flag_test(k, p, flag) for k, p in g):
                 by[flag].append((i, tgt))
     for flag, member in (("DE_DIR", "dirs"), ("DE_FILE", "files")):
         ctx.counters[tag + "_readdir_push_" + flag] = len(by[flag])
@@ -987,3 +1006,42 @@ def loop_walk(fn, loop):
                 return {"dir": "backward", "container": cont, "var": nm,
                         "elem": r"^(%s\[%s\]|%s(\.|->)at\(%s\)|\(\*%s\)\[%s\])" % ((re.escape(base), idx) * 3)}
     return None
+
+
+def expanded_guards(prog, fn, flow, node, X=None):
+    """flow.guards(node) with every key re-rendered through the Expander (single-definition locals replaced by what they hold,
+    parameters as param:<name>), so a rule can state a condition without naming the locals it was computed through.  Facts that have
+    no condition node (synthetic ones) are kept as they are.  Both renderings are returned: [(key, polarity)]."""
+    X = X or Expander(prog, fn)
+    out = []
+    for k, p in flow.guards(node):
+        out.append((k, p))
+        n_ = flow.cn.key_node.get(k)
+        if n_ is None:
+            continue
+        try:
+            k0, _ = flow.cn.key(n_)
+            if k0 != k:
+                continue            # derived fact stored under another node's key
+            k2, _ = flow.cn._key(n_, lambda x: fn.text(x, 0, X._cb, X._ncb))
+        except Exception:
+            continue
+        if k2 != k and (k2, p) not in out:
+            out.append((k2, p))
+    return out
+
+
+def function_level_locals(fn, type_rx=None):
+    """[(name, var record)] of locals declared outside every loop body (declaration order), optionally filtered by type."""
+    lb = set()
+    for l in loops(fn):
+        lb |= set(l["body"])
+    out = []
+    for d in fn.all("decl"):
+        pos = fn.pos_of(d)
+        if pos is None or pos[0] in lb:
+            continue
+        for v in fn.nodes[d].get("vars", []):
+            if type_rx is None or re.search(type_rx, v.get("type", "")):
+                out.append((v["name"], v))
+    return out
